@@ -23,13 +23,13 @@ CHECKS = {
         technique="contract-based verification by effect/frame analysis: closed inventory of exec/import/spawn/network/write sites per entry point over the import-aware call graph (E2), flag-sensitive for --input-eval, plus a clean() refinement-type check on the single eval argument",
         text="For every parser, emitter, doctrans, sync, sync_properties and gen entry point, every reachable EXEC / dynamic-import / spawn / network / file-write site is in the declared inventory (a new or newly reachable site fails a named obligation); "
              "sync_properties cannot reach the eval of the input module unless input_eval; the one eval reachable from parsers receives only strings built from characters that passed the word_chars/separator filter and clean constants (no '(' , '_' , '=' , ':' , '@'). Holds for all inputs because the obligations never look at the input.",
-        note="Assumed: call graph over-approximates real calls (dynamic dispatch of get_parser/get_emitter declared), primitive-effect tables complete, evaluating a clean expression against docstring_parsers' globals is harmless (not proved), third-party code (black) has no such effects."),
+        note="Assumed: call graph over-approximates real calls (dynamic dispatch of get_parser/get_emitter declared), primitive-effect tables complete, attribute access on stdlib modules/objects is side-effect free (the globals/locals visible at the eval site are checked, in a real interpreter, to be only modules, functions, classes, plain data and stdlib instances), third-party code (black) has no such effects."),
     "C20": dict(
         category="other", design_ref="DESIGN.md §5 C20, §2.2",
         technique="contract-based frame verification: flag-guard dominance (dry_run) over the call-graph closure of exmod (E2); remaining clauses by a bounded run of the real CLI with file-system snapshots",
         text="PROVED for all inputs (frame condition): no file-system write site in the call-graph closure of exmod is reachable when dry_run is true (one obligation per write site, flag followed through keyword/positional/partial passing, with cover obligations against vacuity). "
-             "BOUNDED, not proved: containment under the output directory, validity of generated files and their __all__, source package untouched, blacklist/whitelist — real CLI over a stated option matrix on a generated package. One known finding (output directory named 'gold').",
-        note="Assumed: call graph over-approximates real calls; FS_WRITE primitive table complete; the path-taint contract of DESIGN §5 C20(b) was not built."),
+             "BOUNDED, not proved: containment under the output directory, validity of generated files and their __all__, source package untouched, blacklist/whitelist — real CLI over a stated option matrix on a generated package. The generated package is exercised both installed in a venv and lying in a plain directory on PYTHONPATH. One known finding (output directory named 'gold').",
+        note="Assumed: call graph over-approximates real calls; FS_WRITE primitive table complete. The path-confinement contract (emit_filename under output_directory) is NOT provable on the pinned tree: relative_filename returns absolute paths for non-installed packages, os.path.join then yields the source file, and the tree is safe only because the write is skipped when the file already defines the symbol (DESIGN §10.8)."),
     "C18": dict(
         category="proof", design_ref="DESIGN.md §5 C18, §2.3",
         technique="deductive check in an exact model of CPython's import protocol over the module-level statements of the real files (E3), one obligation per entry module and per first module of all ordered pairs; every verdict replayed in real fresh interpreters",
@@ -39,13 +39,13 @@ CHECKS = {
     "C10": dict(
         category="proof", design_ref="DESIGN.md §5 C10, §2.4",
         technique="contract-based verification by a typing discipline: ghost type 'unordered' for set-valued expressions with one obligation per consumption site, plus cross-call-state frame rules (rule engine E4 over the ast of the whole package)",
-        text="Every syntactically set-valued expression of the non-test package is consumed order-insensitively (membership, len, set algebra, sorted without a non-injective key, any/all/min/max, loops that only update pre-existing entries) and no function writes globals, module attributes, module-level objects, mutable defaults or caches; this implies independence from the hash seed and from call history for all inputs. "
+        text="Every syntactically set-valued expression of the non-test package is consumed order-insensitively (membership, len, set algebra, sorted without a non-injective key, any/all/min/max, loops that only update pre-existing entries) and no function writes globals, module attributes, module-level objects, mutable defaults or caches, and no module-level container with nested mutable elements is handed out without a deep copy (nor a flat one passed to a callee that mutates that parameter); this implies independence from the hash seed and from call history for all inputs. "
              "The seed/history byte comparison is a bounded cross-check for what the syntactic typing cannot see.",
-        note="Assumed: values whose type the rules cannot see are ordered; dict order is insertion order; black/ast.unparse deterministic; four call sites where a set is passed to a repo callee are assumed order-insensitive (listed in the evidence)."),
+        note="Assumed: values whose type the rules cannot see are ordered; dict order is insertion order; black/ast.unparse deterministic; sets passed to repo callees are followed into the callee (parameters and instance attributes typed unordered, fixpoint), no assumed callee site remains; module-level mutable templates: only syntactic escapes are seen (a template aliased through a local first is not)."),
     "C15": dict(
         category="other", design_ref="DESIGN.md §5 C15",
         technique="contract-based deductive verification of the split / re-assembly functions (E1 VCs over Python slice semantics, z3 strings) for the mechanism lemmas; run-time contracts over an enumerated docstring domain for the relational remainder",
-        text="PROVED for all strings: (1) in parse_docstring_into_header_args_footer the header, section and footer slices of the original concatenate to the original whenever token-start <= token-last (or either is absent), and the returned section is that slice unless the re-indent branch ran; (2) _get_token_start_idx returns an index in [-1, len]; (3) header_args_footer_to_str keeps the header as a prefix and the footer as a suffix, byte for byte. "
+        text="PROVED for all strings: (1) in parse_docstring_into_header_args_footer the header, section and footer slices of the original concatenate to the original whenever token-start <= token-last (or either is absent), and the returned section is that slice unless the re-indent branch ran; (2) _get_token_start_idx returns an index in [-1, len]; (3) header_args_footer_to_str keeps the header as a prefix and the footer as a suffix, byte for byte; (4) in _get_token_start_idx, at the end of a line that starts with any ReST or Google section token (the property's list, not the code's table), every path returns the start of that line (must-return block contract). "
              "BOUNDED only (not proved): token-start <= token-last between the two independent scanners, the returned triple, and that every header line survives conversion between the three styles (enumerated token strings and constructed docstrings). Two known findings (re-indented section; Raises: off-by-one).",
         note="Assumed contract: _get_token_last_idx returns >= -1 and is deterministic (checked at run time over the bounded domain). E1's Python-semantics model (DESIGN §3)."),
     "C06": dict(
@@ -68,27 +68,27 @@ CHECKS = {
         note="The frame lemma over the args/kwonlyargs replacement loop promised in DESIGN (Seq with a quantified invariant) was not carried; it is covered only by the bounded AST diff."),
     "C07": dict(
         category="other", design_ref="DESIGN.md §5 C07",
-        technique="contract-based frame verification (write-frame and statement-order rules over the real ast of doctrans / ast_cst_utils, composed with C09's proved tiling contract); the property's own oracle on generated modules for the rest",
-        text="PROVED (frame lemmas, all inputs): doctrans opens the file for writing exactly once, as its last statement, with nothing that can raise in repo code after the truncating open and the payload being the concatenation of the CST node values (so an error leaves the file intact); under doctransify_cst the only CST slots ever stored to are cst_idx (the def header) and cst_idx+1, the latter only when it is a docstring node or as an insertion. With C09 this yields: lines that are not definition headers or docstrings are byte-identical. "
+        technique="contract-based deductive verification: block contracts on the header splice of maybe_replace_function_args (E1 over the real statements, exact str.find/rfind as word equations, z3 + cvc5, counter-models replayed by CPython on the same statements), an E1 contract on find_cst_at_ast, and write-frame / statement-order rules over the real ast of doctrans / ast_cst_utils composed with C09's proved tiling contract; the property's own oracle on generated modules for the rest",
+        text="PROVED (frame lemmas, all inputs): doctrans opens the file for writing exactly once, as its last statement, with nothing that can raise in repo code after the truncating open and the payload being the concatenation of the CST node values (so an error leaves the file intact); under doctransify_cst the only CST slots ever stored to are cst_idx (the def header) and cst_idx+1, the latter only when it is a docstring node or as an insertion. With C09 this yields: lines that are not definition headers or docstrings are byte-identical. PROVED (block contracts, all header strings of the shape `head ( plist ) ws [-> ann] :` with no parenthesis/colon in ws and no arrow/colon in ann): the re-rendered header keeps everything up to and including the opening parenthesis and everything from the parenthesis that closes the parameter list (blanks, return annotation — which may contain parentheses — and colon), and the slot keeps its name and line span. "
              "BOUNDED only: that the re-rendered header and docstring keep the program (AST equality modulo docstrings/annotations/type comments), comments, validity — over generated modules. One known finding (comment inside a multi-line header).",
-        note="Assumed: CST node values are str. find_cst_at_ast is under an E1 contract (returned node is the element at the returned index, same name, mapped CST type)."),
+        note="Assumed: CST node values are str; an arrow is in the header text iff new_node.returns is set (established by maybe_replace_function_return_type, which runs first; exercised by the stand-in, not proved); sequential composition of the four block contracts is the standard Hoare rule (blocks are contiguous by construction). Decorated definitions whose decorator has parentheses are outside the header-shape precondition."),
     "C19": dict(
         category="other", design_ref="DESIGN.md §5 C19",
         technique="contract-based verification by dominance / frame / shape rules over the real ast of __main__.main, gen, gen_file and get_functions_and_classes; bounded run of gen and of the CLI for the rest",
-        text="PROVED (rule engine, all inputs): the call gen(**args_dict) in main is dominated by the exists-and-phase-0 guard with nothing in between; gen and gen_file never rebind output_filename, so the path appended to (mode 'a') is the very string the guard tested; get_functions_and_classes adds name_tpl.format(name=name) to __all__ exactly once per input item, in order, and returns one element per item. "
+        text="PROVED (rule engine, all inputs): the call gen(**args_dict) in main is dominated by the exists-and-phase-0 guard with nothing in between; gen and gen_file never rebind output_filename, so the path appended to (mode 'a') is the very string the guard tested; get_functions_and_classes adds name_tpl.format(name=name) to __all__ exactly once per input item, in order, and returns one element per item; in gen_module the only statement kept above the hoisted imports (`from __future__` first) is kept under ast.get_docstring(parsed_ast), i.e. is the module docstring (if the guard is anything else, the real gen is run on an expression-statement --prepend with a __future__ import and a violation is reported only when that output does not compile). "
              "BOUNDED only: the written module compiles, __all__ equals the defined template names, symbols parse back to their source interface, --prepend / --imports-from-file, and the CLI leaves an existing file untouched (plain, ./ and ~ spellings). One known finding (SQLAlchemy kinds: __all__ names undefined symbols).",
         note="Out of the bounded domain because they crash on the pinned tree: function and pydantic emit kinds through gen, --emit-and-infer-imports (stated in the evidence)."),
     "C01": dict(
         category="other", design_ref="DESIGN.md §5 C01/C08",
         technique="contract-based deductive verification of the quoting helpers and two lemmas over their contracts (E1 string VCs, z3); run-time round-trip contract over IR(n) for the property itself",
-        text="PROVED (thin lemmas, all strings): quote, unquote and code_quoted meet exact functional contracts; unquote(quote(s)) == s for non-empty unquoted s; quote(quote(s)) == quote(s). "
+        text="PROVED (thin lemmas, all strings): quote, unquote and code_quoted meet exact functional contracts; unquote(quote(s)) == s for non-empty unquoted s; quote(quote(s)) == quote(s); marker-set lemma: the characters that make _parse_out_default_and_doc classify a typed default as a code expression never occur in repr() of an int, float, complex or bool (rule over the real frozenset constant), so no numeric default is code-quoted on the way back. "
              "BOUNDED only — this is where the property itself is decided, and only within the bound: pi(parse(emit(ir, style, flags))) == pi'(ir) on the real emitter/parser over the docstring-representable slice of IR(n) x 3 styles x emit_default_doc x emit_types, plus a ReST word-wrap sweep. Five known-finding classes on the pinned tree (None default, Google/NumPy return type, NumPy without types, negative int without types).",
-        note="No contract within reach of the engine carries the scanners/parsers (_scan_phase_*, _parse_phase_*, extract_default: casefold comparisons, literal_eval, ~600 lines of index arithmetic); the bounded part is a stand-in, not a proof."),
+        note="Assumed: CPython's repr() of numbers uses only the characters 0-9 . e + - i n f a j ( ) and the letters of True/False. No contract within reach of the engine carries the scanners/parsers (_scan_phase_*, _parse_phase_*, extract_default: casefold comparisons, literal_eval, ~600 lines of index arithmetic); the bounded part is a stand-in, not a proof."),
     "C02": dict(
         category="other", design_ref="DESIGN.md §5 C02",
         technique="contract-based deductive verification of a block contract on function.parse's defaults padding (E1: access paths through getattr/setattr, Seq views, z3); run-time round-trip contract over IR(n) for the property itself",
         text="PROVED (lemma, all signatures): after the padding block of function.parse every positional and keyword-only parameter has a default slot and the real defaults remain aligned with the LAST parameters (padding in front), the parameter lists untouched. "
-             "BOUNDED only — the property itself: pi(parse_f(reparse(to_code(emit_f(ir))))) == norm_f(pi(ir)) with the documented normalisations, over IR(n) x {class, pydantic, function x annotations x kw-only, argparse} x 3 styles x emit_default_doc. Ten known-finding classes on the pinned tree (argparse invents/drops defaults and collapses types; NumPy/Google docstrings inside emitted code lose descriptions; None default; negative int).",
+             "BOUNDED only — the property itself: pi(parse_f(reparse(to_code(emit_f(ir))))) == norm_f(pi(ir)) with the documented normalisations, over IR(n) x {class, pydantic, function x annotations x kw-only, argparse} x 3 styles x emit_default_doc. Twelve known-finding classes on the pinned tree (argparse invents/drops defaults and collapses types; NumPy/Google docstrings inside emitted code lose descriptions; None default; negative int).",
         note="The zip-alignment lemma for function.emit promised in DESIGN was not carried (map/lambda pairs over the same tuple: outside the engine's subset)."),
     "C08": dict(
         category="other", design_ref="DESIGN.md §5 C01/C08",
@@ -98,9 +98,9 @@ CHECKS = {
         note="The pinned tree violates this property broadly, so the known-finding families are wide; a new drift inside one of those families would be hidden."),
     "C14": dict(
         category="other", design_ref="DESIGN.md §5 C14",
-        technique="contract-based deductive verification of _set_name_and_type (E1 string VCs, z3) for the name-sanitising clause; the property's postcondition well_formed_ir(result) as a run-time contract on the real parsers over generated inputs",
-        text="PROVED (lemma, all names): the name returned by _set_name_and_type has no leading asterisk, is a suffix of the original and equals it when there was none. "
-             "BOUNDED only — the postcondition itself: shape, allowed keys, parsable type strings, string descriptions, signature parameters present exactly once, on docstring / function / class (incl. merge_inner_function) / pydantic / argparse / json_schema / sqlalchemy parsers over grammar-generated docstrings, generated code and arbitrary token strings. Six known-finding classes on the pinned tree.",
+        technique="contract-based deductive verification of _set_name_and_type (E1 string VCs, z3) for the name-sanitising clause and of column_call_to_param's keyword folding (E1 block contract, record with presence bits) for the allowed-keys clause; the property's postcondition well_formed_ir(result) as a run-time contract on the real parsers over generated inputs",
+        text="PROVED (lemma, all names): the name returned by _set_name_and_type has no leading asterisk, is a suffix of the original and equals it when there was none. PROVED (block contract, all Column calls): after the keyword folding of column_call_to_param the entry has no `primary_key`, `foreign_key` or `nullable` key and still has its type. "
+             "BOUNDED only — the postcondition itself: shape, allowed keys, parsable type strings, string descriptions, signature parameters present exactly once, on docstring / function / class (incl. merge_inner_function) / pydantic / argparse / json_schema / sqlalchemy parsers over grammar-generated docstrings, generated code and arbitrary token strings. Seven known-finding classes on the pinned tree (entry-keys findings name the leaked key).",
         note="The parsers themselves are outside the engine's reach; running the repository's own tests under the wrappers (planned in DESIGN) was not built."),
     "C03": dict(
         category="other", design_ref="DESIGN.md §5 C03",
